@@ -409,3 +409,71 @@ CONTRACTS.update({
                             ("monotone", "all(e in self.graph.g_edges for e in old(self.graph.g_edges))")])},
     ),
 })
+
+
+# ---------------------------------------------------------------- graph construction: dynamic (occupancy) partitioning of one rank
+# FlowGraph.__build_dyn_part, split case (one rank): for the rank and each of its intermediates (K, K1I, ...), in order:
+#   RankNode(tensor, src) -> PartNode(tensor, (src,)) -> RankNode(tensor, dst) for every level dst it is split into, and -
+#   unless the tensor is itself the leader of THAT level - an edge from the leader's fiber at the upper level,
+#   FiberNode(<leader of src's split>_<dsts[1]>), to the PartNode: a follower is split after its leader's fiber exists.
+# The leader is looked up per source rank (Partitioning.get_leader(src, lowest level)), which is what the statement says.
+def dyn_srcs(part, rank):
+    return [rank] + part.get_intermediates(rank)
+
+
+def split_edges(fg, root, part, t):
+    """the edges the split of the one-rank tuple t = (src,) contributes"""
+    return ((RankNode(root, t[0]), PartNode(root, t)) in fg.graph.g_edges
+            and all((PartNode(root, t), RankNode(root, part.partition_names(t, False)[d])) in fg.graph.g_edges
+                    for d in range(len(part.partition_names(t, False))))
+            and implies(root != part.get_leader(t[0], part.partition_names(t, False)[len(part.partition_names(t, False)) - 1]),
+                        (FiberNode(part.get_leader(t[0], part.partition_names(t, False)[len(part.partition_names(t, False)) - 1]).lower()
+                                   + "_" + part.partition_names(t, False)[1].lower()),
+                         PartNode(root, t)) in fg.graph.g_edges))
+
+
+CONTRACTS.update({
+    "PartitioningF.get_intermediates": dict(params=["self", "rank"], returns="List[str]", assumed=True, observer=True),
+    "PartitioningF.partition_names": dict(params=["self", "ranks", "all_"], returns="List[str]", assumed=True, observer=True,
+                                          ensures=["len(result) >= 2"]),
+    "PartitioningF.get_leader": dict(params=["self", "src", "dst"], returns="str", assumed=True, observer=True),
+    "TensorF.root_name": dict(params=["self"], returns="str", assumed=True, observer=True),
+    "Program.apply_partition_swizzling": dict(params=["self", "tensor"], assumed=True, modifies=[], returns="None"),
+    "FlowGraph.__build_dyn_part": dict(
+        kinds={"tensor": "TensorF", "partitioning": "Tuple[str, ...]", "flatten_info": "Dict[str, List[Any]]"},
+        requires=["tensor.root_name() in flatten_info"],
+        modifies=["self.graph.g_edges[]", "flatten_info[tensor.root_name()][]"],
+        local_kinds={"src_ranks": "List[Tuple[str, ...]]", "leader": "str", "lead_name": "str"},
+        # g_e1: the edge set at the start of the current split (edges only grow from there)
+        ghost_after={"part_node = PartNode(root, srcs)": "g_e1 = self.graph.g_edges.copy()\n"},
+        ensures_env="exit",
+        ensures=[
+            ("one_split_per_rank_and_intermediate",
+             "implies(len(partitioning) == 1, len(src_ranks) == len(dyn_srcs(part, partitioning[0])) and "
+             "all(len(src_ranks[i]) == 1 and src_ranks[i][0] == dyn_srcs(part, partitioning[0])[i] for i in range(len(src_ranks))))"),
+            ("every_split_is_wired_with_the_leader_of_its_own_level",
+             "implies(len(partitioning) == 1, all(split_edges(self, root, part, src_ranks[i]) for i in range(len(src_ranks))))"),
+            ("nothing_removed", "all(e in self.graph.g_edges for e in old(self.graph.g_edges))"),
+        ],
+        loops={
+            0: dict(idx="k0", modifies=["self.graph.g_edges[]"],
+                    inv=[("monotone0", "all(e in self.graph.g_edges for e in old(self.graph.g_edges))")]),
+            1: dict(idx="ks", modifies=["self.graph.g_edges[]"],
+                    inv=[("flatten_case", "implies(len(partitioning) != 1, len(src_ranks) == 1 and src_ranks[0] == partitioning)"),
+                         ("srcs", "implies(len(partitioning) == 1, len(src_ranks) == len(dyn_srcs(part, partitioning[0])) and "
+                                  "all(len(src_ranks[i]) == 1 and src_ranks[i][0] == dyn_srcs(part, partitioning[0])[i] "
+                                  "    for i in range(len(src_ranks))))"),
+                         ("wired_so_far", "implies(len(partitioning) == 1, all(split_edges(self, root, part, src_ranks[i]) for i in range(ks)))"),
+                         ("monotone", "all(e in self.graph.g_edges for e in old(self.graph.g_edges))")]),
+            2: dict(idx="k2", modifies=["self.graph.g_edges[]"],
+                    inv=[("grow", "all(e in self.graph.g_edges for e in g_e1)"),
+                         ("src_edges", "all((RankNode(root, srcs[j]), part_node) in self.graph.g_edges for j in range(k2))")]),
+            3: dict(idx="k3", modifies=["self.graph.g_edges[]"],
+                    inv=[("grow", "all(e in self.graph.g_edges for e in g_e1)"),
+                         ("src_edge", "(RankNode(root, srcs[0]), part_node) in self.graph.g_edges"),
+                         ("leader_edge", "implies(len(srcs) == 1 and root != part.get_leader(srcs[0], dsts[len(dsts) - 1]), "
+                                         "(FiberNode(part.get_leader(srcs[0], dsts[len(dsts) - 1]).lower() + '_' + dsts[1].lower()), part_node) in self.graph.g_edges)"),
+                         ("dst_edges", "all((part_node, RankNode(root, dsts[d])) in self.graph.g_edges for d in range(k3))")]),
+        },
+    ),
+})
